@@ -16,9 +16,12 @@ CHUNK, FREE, PARTIAL = 8, 16, 2
 # --------------------------------------------------------------------------
 # case construction
 # --------------------------------------------------------------------------
-def mk_case(fam=4, conn=0, mm=0, allocs=(), splan=(), rplan=(), ops=(), behs=(), rbehs=()):
-    return "%d %d %d ; %s ; %s ; %s ; %s ; %s ; %s" % (
-        fam, conn, mm, " ".join(str(a) for a in allocs), " ".join(splan), " ".join(rplan),
+def mk_case(fam=4, conn=0, mm=0, allocs=(), splan=(), rplan=(), ops=(), behs=(), rbehs=(), pat=None):
+    """pat: the byte every uv_udp_send_t is pre-filled with (0: 0x00, 1: 0x5A, 2: 0xFF)."""
+    if pat is None:
+        pat = (len(ops) + len(splan) + fam) % 3
+    return "%d %d %d %d ; %s ; %s ; %s ; %s ; %s ; %s" % (
+        fam, conn, mm, pat, " ".join(str(a) for a in allocs), " ".join(splan), " ".join(rplan),
         " ".join(ops), " | ".join(behs), " | ".join(rbehs))
 
 
@@ -54,8 +57,18 @@ def send_plan(rng, n, p_fault):
 
 
 def addr_of(rng, conn, p_wrong=0.04):
-    good = 0 if conn else 1
-    return 1 - good if rng.random() < p_wrong else good
+    """0 = NULL (connected handle), 1 / 2 = the two plain sockets."""
+    wrong = rng.random() < p_wrong
+    if bool(conn) != wrong:
+        return 0
+    return rng.choice([1, 1, 2])
+
+
+def addr2_of(rng, conn):
+    """address argument of a try_send2 batch; 3 = destinations 1 and 2 alternating"""
+    if conn:
+        return rng.choice([0] * 8 + [1, 2, 3])      # Linux honours an explicit address on a connected socket
+    return rng.choice([1, 1, 2, 3, 3] + ([0] if rng.random() < 0.05 else []))
 
 
 def try2_cases(rng, quick):
@@ -83,12 +96,12 @@ def try2_cases(rng, quick):
                         plan += ["t%d" % rng.randint(1, 20)]
                 else:
                     plan = send_plan(rng, 8, 0.3)
-            ops = ["u%s" % ",".join(str(x) for x in [rng.choice([0] * 30 + [1])] + lens), "g"]
+            ops = ["u%s" % ",".join(str(x) for x in [rng.choice([0] * 30 + [1]), addr2_of(rng, conn)] + lens), "g"]
             r = rng.random()
             if r < 0.3:
                 ops += ["t%d,%d" % (small_len(rng), addr_of(rng, conn)), "g"]
             elif r < 0.5:
-                ops += ["u0,%s" % ",".join(str(small_len(rng)) for _ in range(rng.randint(1, 45))), "g"]
+                ops += ["u0,%d,%s" % (addr2_of(rng, conn), ",".join(str(small_len(rng)) for _ in range(rng.randint(1, 45)))), "g"]
             elif r < 0.7:
                 ops += ["s%d,%d" % (small_len(rng), addr_of(rng, conn)), "g", "R", "g"]
             ops += ["x", "R", "g"]
@@ -105,7 +118,7 @@ def cb_ops(rng, conn, may_close=True):
         elif r < 0.55:
             ops.append("t%d,%d" % (small_len(rng), addr_of(rng, conn)))
         elif r < 0.65:
-            ops.append("u0,%s" % ",".join(str(small_len(rng)) for _ in range(rng.randint(1, 30))))
+            ops.append("u0,%d,%s" % (addr2_of(rng, conn), ",".join(str(small_len(rng)) for _ in range(rng.randint(1, 30)))))
         elif r < 0.9:
             ops.append("g")
         elif r < 0.93 and may_close:
@@ -124,6 +137,7 @@ def queue_cases(rng, n):
     for _ in range(n):
         fam, conn = rng.choice([4, 6]), rng.choice([0, 1])
         style = rng.random()
+        conn0 = conn
         nsend = rng.choice([1, 2, 3, 5, 8, 19, 20, 21, 22, 40, 41, 45])
         ops = []
         if style < 0.35:
@@ -142,7 +156,13 @@ def queue_cases(rng, n):
             elif r < 0.26:
                 ops.append("t%d,%d" % (small_len(rng), addr_of(rng, conn)))
             elif r < 0.29:
-                ops.append("u0,%d,%d" % (small_len(rng), small_len(rng)))
+                ops.append("u0,%d,%d,%d" % (addr2_of(rng, conn), small_len(rng), small_len(rng)))
+            elif r < 0.34 and not conn:
+                conn = rng.choice([1, 2])            # connect with sends possibly queued
+                ops.append("c%d" % conn)
+            elif r < 0.37 and conn:
+                conn = 0
+                ops.append("d")
         ops.append("g")
         close_early = rng.random() < 0.3
         for _ in range(rng.choice([0, 1, 1, 2, 3]) if close_early else rng.choice([2, 3, 4, 6])):
@@ -151,7 +171,7 @@ def queue_cases(rng, n):
                 ops.append("s%d,%d" % (small_len(rng), addr_of(rng, conn)))
         ops += ["x", "g", "R", "g"]
         behs = [" ".join(cb_ops(rng, conn)) for _ in range(rng.choice([0, 2, 6, 12]))]
-        out.append(mk_case(fam, conn, 0, [], plan, [], ops, behs))
+        out.append(mk_case(fam, conn0, 0, [], plan, [], ops, behs))
     return out
 
 
@@ -226,13 +246,55 @@ def recv_cases(rng, n):
     return out
 
 
-WITNESS = mk_case(4, 0, 0, [], [], [], ["u0," + ",".join(["10"] * 50), "g", "x", "R"])
+def dest_cases(rng, n):
+    """Destinations: request structures pre-filled with a byte pattern and reused across sends to
+    different destinations, connect / disconnect between them, NULL address on a connected handle."""
+    out = []
+    for _ in range(n):
+        fam, conn = rng.choice([4, 6]), rng.choice([0, 0, 1])
+        conn0 = conn
+        ops = []
+        plan = send_plan(rng, 10, 0.15) if rng.random() < 0.4 else []
+        for _ in range(rng.randint(3, 14)):
+            r = rng.random()
+            if r < 0.45:
+                ops.append("s%d,%d" % (small_len(rng), addr_of(rng, conn, 0.02)))
+                if rng.random() < 0.6:
+                    ops.append("R")
+            elif r < 0.55:
+                ops.append("t%d,%d" % (small_len(rng), addr_of(rng, conn, 0.02)))
+            elif r < 0.65:
+                ops.append("u0,%d,%s" % (addr2_of(rng, conn), ",".join(str(small_len(rng)) for _ in range(rng.randint(1, 25)))))
+            elif r < 0.85:
+                if conn:
+                    ops.append("d")
+                    conn = 0
+                else:
+                    conn = rng.choice([1, 2])
+                    ops.append("c%d" % conn)
+            else:
+                ops += ["R", "g"]
+        ops += ["R", "g", "R", "x", "R", "g"]
+        behs = [" ".join(cb_ops(rng, conn, may_close=False)) for _ in range(rng.choice([0, 0, 4]))]
+        out.append(mk_case(fam, conn0, 0, [], plan, [], ops, behs, pat=rng.choice([0, 1, 2])))
+    return out
+
+
+WITNESS = mk_case(4, 0, 0, [], [], [], ["u0,1," + ",".join(["10"] * 50), "g", "x", "R"])
 
 FIXED_CASES = [
     WITNESS,
-    mk_case(6, 1, 0, [], [], [], ["u0," + ",".join(["7"] * 41), "g", "x", "R"]),
-    mk_case(4, 1, 0, [], [], [], ["u0," + ",".join(["12"] * 100), "g", "x", "R"]),
-    mk_case(4, 0, 0, [], ["p", "t3", "e11"], [], ["u0," + ",".join(["9"] * 50), "g", "x", "R"]),
+    mk_case(6, 1, 0, [], [], [], ["u0,0," + ",".join(["7"] * 41), "g", "x", "R"]),
+    mk_case(4, 1, 0, [], [], [], ["u0,0," + ",".join(["12"] * 100), "g", "x", "R"]),
+    mk_case(4, 0, 0, [], ["p", "t3", "e11"], [], ["u0,3," + ",".join(["9"] * 50), "g", "x", "R"]),
+    # a request used for an unconnected send to destination 2, the handle then connects to
+    # destination 1 and the same request (not cleared) carries a send with a NULL address
+    mk_case(4, 0, 0, [], [], [], ["s9,2", "R", "c1", "s9,0", "R", "g", "x", "R"], pat=0),
+    mk_case(6, 0, 0, [], [], [], ["s9,2", "R", "c1", "s9,0", "s7,0", "R", "d", "s8,1", "R", "g", "x", "R"], pat=1),
+    mk_case(4, 0, 0, [], ["e11"], [], ["s9,1", "s9,2", "R", "c2", "s9,0", "s9,0", "R", "g", "x", "R"], ["s5,0"], pat=2),
+    # requests full of 0x5A / 0xFF on a connected handle
+    mk_case(4, 1, 0, [], [], [], ["s9,0", "s9,0", "R", "g", "x", "R"], pat=1),
+    mk_case(6, 1, 0, [], ["e11"], [], ["s9,0", "s9,0", "s9,0", "R", "g", "x", "R"], pat=2),
     # 45 queued sends behind a forced EAGAIN, POLLOUT later
     mk_case(4, 0, 0, [], ["e11"], [], ["s8,1"] * 45 + ["g", "R", "g", "R", "g", "x", "R", "g"], ["g"] * 45),
     # close with sends queued
@@ -292,9 +354,25 @@ def udp_monitor(case, line):
     toks = line.split()
     if not toks or toks[0] == "BADCASE":
         return [(None, "harness rejected the case")]
+    if toks[-1].startswith("!") or "HANG" in toks:
+        bad.append((None, "the library did not come back from the case (%s)" % toks[-1]))
+    asked = {}                                 # seq -> address the application gave (0 = NULL)
+    peer = 1 if case.split(";")[0].split()[1] == "1" else 0
+    expect = {1: [], 2: []}                    # what each plain socket must receive, in order
+    DEST = {0: "the connected peer", 1: "destination 1", 2: "destination 2"}
+
+    def seqname(x):
+        sq, _, nm = x.partition("@")
+        return int(sq), nm
 
     def hand(seqs):
         for s in seqs:
+            w = asked.get(s, 0)
+            to = w if w else peer
+            if to in expect:
+                expect[to].append(s)
+            else:
+                bad.append((None, "datagram %d was handed to the OS although it has no destination" % s))
             if s < 0:
                 bad.append((None, "a datagram the application never submitted was handed to the OS"))
             if handed and s <= handed[-1]:
@@ -310,15 +388,27 @@ def udp_monitor(case, line):
                 if i in owed or i in done:
                     bad.append((None, "request id %d reused" % i))
                 owed[i] = (sq, ln)
+        elif c == "A":
+            sq0, cnt, ad = [int(x) for x in a.split(",")]
+            for k in range(cnt):
+                asked[sq0 + k] = (1 + (sq0 + k) % 2) if ad == 3 else ad
+        elif c == "C":
+            d, ret = a.split("=")
+            if int(ret) == 0:
+                peer = int(d)
+        elif c == "D":
+            if int(a.split("=")[1]) == 0:
+                peer = 0
         elif c == "m":
             sq, ans = a.split("=")
+            sq = seqname(sq)[0]
             if ans[0] != "E":
-                hand([int(sq)])
+                hand([sq])
             elif int(ans[1:]) not in (EINTR, EAGAIN, ENOBUFS):
-                errs[int(sq)] = -int(ans[1:])
+                errs[sq] = -int(ans[1:])
         elif c == "M":
             l, ans = a.split("=")
-            seqs = [int(x) for x in l.split(".")] if l else []
+            seqs = [seqname(x)[0] for x in l.split(".")] if l else []
             if ans[0] != "E":
                 if int(ans) > len(seqs):
                     bad.append((None, "sendmmsg wrapper answered more than vlen"))
@@ -428,12 +518,20 @@ def udp_monitor(case, line):
             if buf is not None and buf[1]:
                 buf[2] = True
                 pend_stop = True
-        elif c == "W":
+        elif c in "WY":
+            who = 1 if c == "W" else 2
             got = a.split(".") if a else []
-            want = [str(s) for s in handed]
-            if got != want:
-                bad.append((None, "plain socket received %s but %s were handed to the OS (lost, duplicated or reordered)"
-                            % (compress_s(got), compress([int(x) for x in want]))))
+            exp = [str(s) for s in expect[who]]
+            if got != exp:
+                stray = [x for x in got if x not in exp and x != "?"]
+                if stray and int(stray[0]) in handed:
+                    sq = int(stray[0])
+                    bad.append((None, "datagram %d for %s arrived at destination %d"
+                                % (sq, DEST.get(asked.get(sq, 0), "?") if asked.get(sq, 0) else
+                                   "the connected peer (destination %s)" % [k for k in expect if sq in expect[k]], who)))
+                else:
+                    bad.append((None, "destination %d received %s but %s were handed to the OS for it (lost, duplicated or reordered)"
+                                % (who, compress_s(got), compress([int(x) for x in exp]))))
     if buf is not None and not buf[2]:
         bad.append((None, "buffer %d from alloc_cb was never handed back" % buf[0]))
     if closedcb and owed:
@@ -472,8 +570,10 @@ def main():
         chk.violation("build failed: %s" % str(e)[:300], {"kind": "build", "log": str(e)}, found_input=False)
         chk.finish(rule="build failed")
 
+    full = {}        # case -> implementation trace with the A annotations (what the application asked for)
+
     def monitor(case, line):
-        for key, text in udp_monitor(case, line):
+        for key, text in udp_monitor(case, full.get(case, line)):
             if key is not None:
                 f = chk.match_known(key)
                 if f is None and assume_known:
@@ -486,10 +586,13 @@ def main():
 
     def run(name, cases, shards=8):
         a, rc, err = vf.run_lines([exe], cases, shards=shards)
-        if rc != 0 or len(a) != len(cases):
+        if len(a) != len(cases) or (rc != 0 and not any("!" in l or "HANG" in l for l in a)):
             chk.violation("%s: harness failed (exit %s): %s" % (name, rc, (err or "")[-300:]),
                           {"kind": "harness", "obligation": name, "stderr": (err or "")[-2000:]}, found_input=False)
             return [], []
+        for c, l in zip(cases, a):
+            full[c] = l
+        a = [" ".join(t for t in l.split() if t[0] != "A") for l in a]
         mc = [model_case(c, l) for c, l in zip(cases, a)]
         b, rc2, err2 = vf.run_lines([model], mc, shards=shards)
         verdicts = [l.rsplit(" ", 1)[-1] if l else "" for l in b]
@@ -526,6 +629,10 @@ def main():
     a, _ = run("uv_udp_send queue = Model/Udp.v", qc)
     if a:
         chk.sample({"case": qc[0][:300], "impl": a[0][:300]})
+    dc = dest_cases(chk.rng, 8000 if thorough else 1000)
+    a, _ = run("udp destinations = Model/Udp.v", dc)
+    if a:
+        chk.sample({"case": dc[0][:300], "impl": a[0][:300]})
     rc = recv_cases(chk.rng, 10000 if thorough else 1000)
     a, _ = run("udp receive = Model/Udp.v", rc)
     if a:
